@@ -38,15 +38,18 @@ theorem C16_backoff_monotone (minB maxB n m : Nat) (h : n ≤ m) :
 
 /-! ## retries.Add / Clear -/
 
-/-- the item `retryAdd` leaves in the map for `obj.id` -/
+/-- the item `retryAdd` leaves in the map for `obj.id`: the revision of the ORIGINAL change is kept
+    over the retries of an item (F15) -/
 theorem C16_retryAdd_item (r : R) (obj : RObj) (rev origRev : Nat) (del : Bool) :
     ∃ it, (r.retryAdd obj rev origRev del).items.find? (·.id = obj.id) = some it ∧
-      it.inQueue = true ∧ it.inRevQueue = true ∧ it.origRev = origRev ∧
+      it.inQueue = true ∧ it.inRevQueue = true ∧
+      it.origRev = (match r.items.find? (·.id = obj.id) with | some i => i.origRev | none => origRev) ∧
       it.numRetries = (match r.items.find? (·.id = obj.id) with | some i => i.numRetries | none => 0) + 1 ∧
       it.retryAt = r.now + backoff r.cfg.minB r.cfg.maxB it.numRetries := by
   unfold R.retryAdd
   simp only
-  refine ⟨{ id := obj.id, obj, rev, origRev, delete := del,
+  refine ⟨{ id := obj.id, obj, rev,
+            origRev := (match r.items.find? (·.id = obj.id) with | some i => i.origRev | none => origRev), delete := del,
             retryAt := r.now + backoff r.cfg.minB r.cfg.maxB ((match r.items.find? (·.id = obj.id) with | some i => i.numRetries | none => 0) + 1),
             numRetries := (match r.items.find? (·.id = obj.id) with | some i => i.numRetries | none => 0) + 1,
             inQueue := true, inRevQueue := true }, ?_, rfl, rfl, rfl, rfl, rfl⟩
